@@ -17,14 +17,113 @@ fn h(m: &MetaType) -> u64 {
     s.finish()
 }
 
+/// "Does this type have type info?" decided at compile time without failing to compile when it has none
+/// (autoref specialisation): types outside the corpus grammar join the pairs as soon as an impl for them exists.
+struct Probe<T: ?Sized>(std::marker::PhantomData<T>);
+trait ViaImpl {
+    fn probe(&self) -> Option<(MetaType, TypeId)>;
+}
+impl<T: scale_info::TypeInfo + 'static + ?Sized> ViaImpl for Probe<T> {
+    fn probe(&self) -> Option<(MetaType, TypeId)> {
+        Some((scale_info::meta_type::<T>(), TypeId::of::<<T as scale_info::TypeInfo>::Identity>()))
+    }
+}
+trait NoImpl {
+    fn probe(&self) -> Option<(MetaType, TypeId)> {
+        None
+    }
+}
+impl<T: ?Sized> NoImpl for &Probe<T> {}
+
+macro_rules! probes {
+    ($($t:ty),* $(,)?) => { vec![$((stringify!($t), (&Probe::<$t>(std::marker::PhantomData)).probe())),*] };
+}
+
+fn probed() -> Vec<(&'static str, Option<(MetaType, TypeId)>)> {
+    use std::cell::{Cell, RefCell};
+    use std::collections::{HashMap, HashSet, LinkedList};
+    use std::num::Wrapping;
+    use std::sync::{Mutex, RwLock};
+    probes![
+        LinkedList<u8>, LinkedList<u16>, LinkedList<String>, HashMap<u8, u16>, HashSet<u8>, HashSet<String>, Cell<u8>, RefCell<u8>, Mutex<u8>, RwLock<u8>, Wrapping<u8>, Wrapping<u32>,
+        std::cmp::Reverse<u8>, std::pin::Pin<Box<u8>>, std::rc::Weak<u8>, std::sync::Weak<u8>, std::ops::RangeFrom<u8>, std::ops::RangeTo<u8>, std::ops::RangeToInclusive<u8>, std::ops::RangeFull,
+        std::ops::Bound<u8>, std::task::Poll<u8>, std::time::Instant, std::time::SystemTime, std::net::Ipv4Addr, std::path::PathBuf, std::ffi::CString, std::ffi::OsString, Box<str>, Box<[u16]>,
+        std::rc::Rc<str>, std::sync::Arc<str>, std::rc::Rc<[u8]>, std::sync::Arc<[u8]>, std::borrow::Cow<'static, [u16]>, f32, f64, usize, isize, (),
+        std::sync::atomic::AtomicU8, std::sync::atomic::AtomicBool, std::mem::ManuallyDrop<u8>, std::mem::MaybeUninit<u8>, std::num::Saturating<u8>, std::convert::Infallible,
+        std::collections::BTreeMap<String, u8>, std::collections::BTreeSet<u16>, std::collections::BinaryHeap<u8>, std::collections::VecDeque<String>
+    ]
+}
+
 pub fn run(a: &Args) -> Report {
-    let es = crate::gen::entries();
+    let mut es = crate::gen::entries();
+    // concurrent first use: before anything else in this process has created a MetaType, eight threads create the MetaTypes of
+    // the same types at the same moment (a barrier in front of every type); whatever thread made them, MetaTypes of one
+    // identity are equal / Equal / hash alike, MetaTypes of two identities are not
+    let mut early = Report::default();
+    {
+        let nthreads = 8;
+        let subset: Vec<usize> = (0..es.len()).step_by((es.len() / 400).max(1)).collect();
+        let barrier = std::sync::Barrier::new(nthreads);
+        let per_thread: Vec<Vec<MetaType>> = std::thread::scope(|sc| {
+            let hs: Vec<_> = (0..nthreads)
+                .map(|_| {
+                    sc.spawn(|| {
+                        let mut v = Vec::with_capacity(subset.len());
+                        for j in &subset {
+                            barrier.wait();
+                            v.push((es[*j].meta)());
+                        }
+                        v
+                    })
+                })
+                .collect();
+            hs.into_iter().map(|h| h.join().expect("worker")).collect()
+        });
+        let ids: Vec<TypeId> = subset.iter().map(|j| (es[*j].did)()).collect();
+        'outer: for x in 0..subset.len() {
+            for t in 1..nthreads {
+                let (p, q) = (per_thread[0][x], per_thread[t][x]);
+                if p != q || p.cmp(&q) != Ordering::Equal || h(&p) != h(&q) {
+                    early.violation("C16/recreated-differs", format!("MetaTypes of `{}` created by two threads at the same moment are not equal / do not compare Equal / hash differently", es[subset[x]].text), json!({"a": es[subset[x]].text, "concurrent_first_use": true}));
+                    break 'outer;
+                }
+            }
+            for y in 0..subset.len() {
+                let (p, q) = (per_thread[x % nthreads][x], per_thread[(x + y) % nthreads][y]);
+                let same = ids[x] == ids[y];
+                if (p == q) != same || (p.cmp(&q) == Ordering::Equal) != same {
+                    early.violation(if same { "C16/unequal-but-same-identity" } else { "C16/ord-inconsistent-with-eq" }, format!("`{}` and `{}` (MetaTypes first created concurrently by several threads): == is {}, cmp is {:?}, identities are {}", es[subset[x]].text, es[subset[y]].text, p == q, p.cmp(&q), if same { "the same" } else { "different" }), json!({"a": es[subset[x]].text, "b": es[subset[y]].text, "concurrent_first_use": true}));
+                    break 'outer;
+                }
+            }
+        }
+        early.count("concurrent_first_use_types", subset.len() as u64);
+        early.count("concurrent_first_use_threads", nthreads as u64);
+    }
+    // types outside the corpus grammar that turn out to have type info join the pairs
+    let mut extra_metas: Vec<(MetaType, TypeId)> = Vec::new();
+    for (text, found) in probed() {
+        early.count("types_probed_for_an_impl", 1);
+        if let Some((m, d)) = found {
+            if !es.iter().any(|e| e.text == text) {
+                early.count("probed_types_with_an_impl_outside_the_corpus", 1);
+                es.push(vcommon::corpus::Entry::probe(text));
+                extra_metas.push((m, d));
+            }
+        }
+    }
     let n = es.len() as u64;
-    let metas: Vec<MetaType> = es.iter().map(|e| (e.meta)()).collect();
-    let dids: Vec<TypeId> = es.iter().map(|e| (e.did)()).collect();
+    let n_corpus = es.len() - extra_metas.len();
+    let mut metas: Vec<MetaType> = es.iter().take(n_corpus).map(|e| (e.meta)()).collect();
+    let mut dids: Vec<TypeId> = es.iter().take(n_corpus).map(|e| (e.did)()).collect();
+    for (m, d) in &extra_metas {
+        metas.push(*m);
+        dids.push(*d);
+    }
     let cfg = RunCfg { threads: a.u("threads", 16) as usize, cases: n, first_case: a.u("case", 0), max_secs: a.f("max-secs", 3600.0), progress: None };
     let cfg = if a.has("case") { RunCfg { cases: 1, threads: 1, ..cfg } } else { cfg };
     let mut total = Report::default();
+    total.merge(early);
     let body = run_parallel(&cfg, |i, rep| {
         let i = i as usize;
         let (ma, da) = (metas[i], dids[i]);
@@ -36,7 +135,7 @@ pub fn run(a: &Args) -> Report {
             rep.violation("C16/copy-differs", format!("a copy of the MetaType of `{}` is not equal to it", es[i].text), json!({"a": es[i].text}));
         }
         // a second, independently created MetaType of the same type
-        let again = (es[i].meta)();
+        let again = if i < n_corpus { (es[i].meta)() } else { metas[i] };
         if again != ma || h(&again) != h(&ma) {
             rep.violation("C16/recreated-differs", format!("two MetaTypes created for `{}` are not equal", es[i].text), json!({"a": es[i].text}));
         }
